@@ -1,6 +1,7 @@
 import TaurexModel.Proto
 import TaurexModel.Binning
 import TaurexModel.Observation
+import TaurexModel.ObsHolder
 
 namespace Taurex.Ops.C17
 open Taurex.Proto Taurex.Binning Taurex.Observation
@@ -33,6 +34,38 @@ def loadOp (args : List String) : Option String :=
       fList fF o.binWidths ++ " " ++ fList fF o.binEdges ++ " " ++ fList fF (b.map TBin.c) ++ " " ++
       fList fF (b.map TBin.w) ++ " " ++ fList fF binned)
 
-def ops : List Op := [("c17.load", loadOp)]
+/-- one observation of a history: `0` (None) or `1 kind rows` (as for `c17.load`; fewer than 2 rows: rejected) -/
+def obsArg : P (Option (Option (Obs Float))) := do
+  let o ← optOf (do
+    let kind ← nat
+    let rows ← listOf (listOf flt)
+    pure (kind, rows))
+  match o with
+  | none => pure (some none)
+  | some (kind, rows) =>
+    if rows.length < 2 then pure none else
+      let orows := if kind == 2 then (mkORows rows).map fromTaurex else mkORows rows
+      pure (some (some (load (kind != 0) orows)))
+
+/-- `c17.holder native_c native_s first [later…]`: `Optimizer(observed=first)` followed by `set_observed(o)` for every later
+    entry → `observed-present binner-present binner._wngrid binner._wngrid_width bin_model[1] chisq_trans` (the last two
+    empty / absent when the object holds no binner or no observation) -/
+def holderOp (args : List String) : Option String :=
+  run (do
+    let nc ← listOf flt
+    let ns ← listOf flt
+    let first ← obsArg
+    let later ← listOf obsArg
+    pure (nc, ns, first, later)) args >>= fun (nc, ns, first, later) =>
+  first >>= fun first =>
+  (later.mapM id) >>= fun later =>
+    if nc.length < 2 then none else
+    let h := (Holder.new first).after later
+    let native := mkRows nc ns
+    let b := h.binner.getD []
+    some (fB h.observed.isSome ++ " " ++ fB h.binner.isSome ++ " " ++ fList fF (b.map TBin.c) ++ " " ++
+      fList fF (b.map TBin.w) ++ " " ++ fList fF ((h.binModel native).getD []) ++ " " ++ fOpt fF (h.chisq native))
+
+def ops : List Op := [("c17.load", loadOp), ("c17.holder", holderOp)]
 
 end Taurex.Ops.C17
